@@ -151,6 +151,39 @@ func (e *Enc) useCnt2() {
 	e.note("built-in counting axioms for cnt2 (finite-set cardinality restricted by a predicate) are part of the trusted base")
 }
 
+// sum2(S, W) = sum of W[k] over the keys k of the finite set S: built-in axioms (trusted base), the
+// weighted analogue of cnt2
+func (e *Enc) useSum2() {
+	for _, a := range e.s.Axioms {
+		if strings.HasPrefix(a, "(declare-fun sum2 ") {
+			return
+		}
+	}
+	e.s.Axioms = append(e.s.Axioms,
+		"(declare-fun sum2 ((Array Int Bool) (Array Int Int)) Int)",
+		"(assert (forall ((w (Array Int Int))) (! (= (sum2 ((as const (Array Int Bool)) false) w) 0) :pattern ((sum2 ((as const (Array Int Bool)) false) w)))))",
+		"(assert (forall ((s (Array Int Bool)) (w (Array Int Int)) (k Int)) (! (=> (not (select s k)) (= (sum2 (store s k true) w) (+ (sum2 s w) (select w k)))) :pattern ((sum2 (store s k true) w)))))",
+		// extensionality in the set (contrapositive, with a witness function)
+		"(declare-fun sum2sdiff ((Array Int Bool) (Array Int Bool)) Int)",
+		"(declare-fun sum2wdiff2 ((Array Int Bool) (Array Int Int) (Array Int Int)) Int)",
+		"(assert (forall ((s (Array Int Bool)) (t (Array Int Bool)) (v (Array Int Int)) (w (Array Int Int))) (! (or (= (sum2 s v) (sum2 t w)) (not (= (select s (sum2sdiff s t)) (select t (sum2sdiff s t)))) (and (select s (sum2wdiff2 s v w)) (not (= (select v (sum2wdiff2 s v w)) (select w (sum2wdiff2 s v w)))))) :pattern ((sum2 s v) (sum2 t w)))))",
+		// ... and in the weights
+		"(declare-fun sum2wdiff ((Array Int Int) (Array Int Int)) Int)",
+		"(assert (forall ((s (Array Int Bool)) (v (Array Int Int)) (w (Array Int Int))) (! (or (= (sum2 s v) (sum2 s w)) (not (= (select v (sum2wdiff v w)) (select w (sum2wdiff v w))))) :pattern ((sum2 s v) (sum2 s w)))))",
+	)
+	e.s.Axioms = append(e.s.Axioms,
+		// monotone in the set for non-negative weights: s subset of t and w >= 0 imply sum(s) <= sum(t)
+		"(declare-fun sum2sub ((Array Int Bool) (Array Int Bool)) Int)",
+		"(declare-fun sum2neg ((Array Int Int)) Int)",
+		"(assert (forall ((s (Array Int Bool)) (t (Array Int Bool)) (w (Array Int Int))) (! (or (<= (sum2 s w) (sum2 t w)) (and (select s (sum2sub s t)) (not (select t (sum2sub s t)))) (< (select w (sum2neg w)) 0)) :pattern ((sum2 s w) (sum2 t w)))))",
+		"(assert (forall ((s (Array Int Bool)) (w (Array Int Int))) (! (or (>= (sum2 s w) 0) (< (select w (sum2neg w)) 0)) :pattern ((sum2 s w)))))",
+		// the sum over a set without elements is 0 (witness: some element of s)
+		"(declare-fun sum2elem ((Array Int Bool)) Int)",
+		"(assert (forall ((s (Array Int Bool)) (w (Array Int Int))) (! (or (= (sum2 s w) 0) (select s (sum2elem s))) :pattern ((sum2 s w)))))",
+	)
+	e.note("built-in summation axioms for sum2 (sum of a weight over a finite set) are part of the trusted base")
+}
+
 // specAssume evaluates a clause and assumes it together with the well-typedness facts of
 // the memory it reads; specOblige assumes those facts and then asserts the clause.
 func (e *Enc) specAssume(st *State, x *SExpr, env *SpecEnv) {
